@@ -69,11 +69,12 @@ From V Require Import C20.PluginSpec C20.Plugin.
 Definition ex_build : list bact :=
   [AStartBegin 1%nat; AStartBegin 0%nat; AStartEnd 0%nat; AStartEnd 1%nat; ABarrier;
    AInjectResolve; AInjectVisit 7%nat; ALoad 7%nat;
-   AVisit 0%nat; AResolve; ALoad 0%nat; AVisit 1%nat; AVisit 2%nat; AVisit 1%nat; ALoad 2%nat; AResolve; ALoad 1%nat; AVisit 0%nat;
+   AVisit 0%nat; AResolve; ALoad 0%nat; AResolveIn 0%nat 0%nat; AResolveIn 0%nat 1%nat; ADeliver 0%nat;
+   AVisit 1%nat; AVisit 2%nat; AVisit 1%nat; ALoad 2%nat; ADeliver 2%nat; AResolve; ALoad 1%nat; AResolveIn 1%nat 0%nat; ADeliver 1%nat; AVisit 0%nat; ADeliver 7%nat;
    AWrite; AEndBegin; AEndEnd false; AEndBegin; AEndEnd true].
 Example ex_build_trace :
   option_map snd (brun 2 3 bst0 ex_build) =
-  Some [PSB 1; PSB 0; PSE 0; PSE 1; PRes; PLoad 7; PRes; PLoad 0; PLoad 2; PRes; PLoad 1; PEB 0 true; PEE 0 false; PEB 1 true; PEE 1 true].
+  Some [PSB 1; PSB 0; PSE 0; PSE 1; PRes; PLoad 7; PRes; PLoad 0; PResK 0 0; PResK 0 1; PLoad 2; PRes; PLoad 1; PResK 1 0; PEB 0 true; PEE 0 false; PEB 1 true; PEE 1 true].
 Proof. vm_compute. reflexivity. Qed.
 Example ex_build_ok : build_trace_ok 2 3 [PSB 1; PSB 0; PSE 0; PSE 1; PRes; PLoad 0; PLoad 2; PRes; PLoad 1; PEB 0 true; PEE 0 false; PEB 1 true; PEE 1 true] = true.
 Proof. vm_compute. reflexivity. Qed.
@@ -114,4 +115,16 @@ Example ex_svc_bad_exit : svc_trace_ok [ECReq 1; EClose; EExit] = false. Proof. 
 (* the packet trace of the refutation witness has the shape of the recorded transcript *)
 Example ex_witness_trace : option_map snd (srun sst0 (wit_second_dispose ++ [SRespond 4])) =
   Some [ECReq 1; ESResp 1; ECReq 2; ESReq 0; ECReq 3; ECReq 4; ESResp 4].
+Proof. vm_compute. reflexivity. Qed.
+(* the resolver cache and the write barrier in the model and in the checker *)
+Example ex_resolve_cached : brun 1 1 bst0 [AStartBegin 0%nat; AStartEnd 0%nat; ABarrier; AVisit 0%nat; ALoad 0%nat;
+                                           AResolveIn 0%nat 5%nat; AResolveIn 0%nat 5%nat] = None.
+Proof. vm_compute. reflexivity. Qed.
+Example ex_no_write_while_parsing : brun 1 1 bst0 [AStartBegin 0%nat; AStartEnd 0%nat; ABarrier; AVisit 0%nat; ALoad 0%nat; AWrite] = None.
+Proof. vm_compute. reflexivity. Qed.
+Example ex_build_bad_resolve_twice : build_trace_ok 1 1 [PSB 0; PSE 0; PLoad 0; PResK 0 1; PResK 0 1] = false.
+Proof. vm_compute. reflexivity. Qed.
+Example ex_build_bad_resolve_unloaded : build_trace_ok 1 1 [PSB 0; PSE 0; PResK 0 1] = false.
+Proof. vm_compute. reflexivity. Qed.
+Example ex_build_bad_load_after_end : build_trace_ok 1 1 [PSB 0; PSE 0; PEB 0 true; PLoad 0] = false.
 Proof. vm_compute. reflexivity. Qed.
